@@ -254,7 +254,7 @@ func Build(c CaseT, ask []string, obs *ObsT) *router.Router {
 		r.NoRoute(probe(-1, true))
 	}
 	for i, g := range c.Script {
-		if c.Warm && i == c.WarmupAt && c.Eng.Version == "" {
+		if c.Warm && i == c.WarmupAt {
 			r.Warmup()
 		}
 		var rt *route.Route
